@@ -3,8 +3,10 @@ package gosym
 // The harness API (package zzverif) as engine intrinsics.
 
 import (
+	"crypto/sha256"
 	"encoding/hex"
 	"fmt"
+	"go/types"
 	"math/big"
 	"sort"
 	"strings"
@@ -126,6 +128,14 @@ func init() {
 	reg(zz+"Or", func(c *CallCtx, a []Value) []Outcome { return ret1(Or(a[0].(*Term), a[1].(*Term))) })
 	reg(zz+"Implies", func(c *CallCtx, a []Value) []Outcome { return ret1(Implies(a[0].(*Term), a[1].(*Term))) })
 	reg(zz+"IsLowerASCII", func(c *CallCtx, a []Value) []Outcome { return ret1(isLowerT(a[0].(*Term))) })
+	reg(zz+"Deref", func(c *CallCtx, a []Value) []Outcome {
+		iv := a[0].(*IfaceV)
+		p, ok := iv.V.(*Ptr)
+		if !ok || iv.T == nil {
+			throwf("Deref of %s", showValue(iv))
+		}
+		return ret1(&IfaceV{T: iv.T.Underlying().(*types.Pointer).Elem(), V: c.S.load(p)})
+	})
 	reg(zz+"Assume", func(c *CallCtx, a []Value) []Outcome {
 		return []Outcome{{Cond: a[0].(*Term)}}
 	})
@@ -242,7 +252,12 @@ func init() {
 		for i := 0; i < sl.Len; i++ {
 			parts = append(parts, constStr(c.S.load(&Ptr{Obj: sl.Arr, Path: []int{sl.Off + i}}), "WFKey part"))
 		}
-		c.S.W.Ghost["wfkey:"+constStr(a[0], "store")+":"+constStr(a[1], "type")] = parts
+		key := "wfkey:" + constStr(a[0], "store") + ":" + constStr(a[1], "type")
+		var specs [][]string
+		if old, ok := c.S.W.Ghost[key]; ok {
+			specs = append(specs, old.([][]string)...)
+		}
+		c.S.W.Ghost[key] = append(specs, parts)
 		return retNone()
 	})
 	reg(zz+"WFAddr", func(c *CallCtx, a []Value) []Outcome {
@@ -269,7 +284,9 @@ func init() {
 		return retNone()
 	})
 	reg(zz+"ModuleAddr", func(c *CallCtx, a []Value) []Outcome {
-		return ret1(&BytesV{T: App("modaddr", a[0].(*Term)), NilT: TFalse})
+		app := App("modaddr", a[0].(*Term))
+		c.S.W.noteEval("mod", app, a[0].(*Term))
+		return ret1(&BytesV{T: app, NilT: TFalse})
 	})
 	reg(zz+"Blocked", func(c *CallCtx, a []Value) []Outcome {
 		c.S.W.noteEval("blocked", App("blocked", a[0].(*BytesV).T), a[0].(*BytesV).T)
@@ -479,6 +496,18 @@ func (e *Engine) scenario(s *State, cm *CachedModel, ob string) *Scenario {
 			}
 		}
 	}
+	// abstract module addresses -> the real ones (first 20 bytes of sha256(module name))
+	modReal := map[string]string{}
+	for i, en := range s.W.Evals {
+		if strings.HasPrefix(en.Tag, "mod|") && en.Kind == "app" && i+1 < len(s.W.Evals) {
+			av, ok1 := evalStr(i)
+			nm, ok2 := evalStr(i + 1)
+			if ok1 && ok2 {
+				d := sha256.Sum256([]byte(nm))
+				modReal[av] = string(d[:20])
+			}
+		}
+	}
 	// table bases and predicates
 	var cur *BalRec
 	for i, en := range s.W.Evals {
@@ -492,7 +521,11 @@ func (e *Engine) scenario(s *State, cm *CachedModel, ob string) *Scenario {
 			sc.Bal = append(sc.Bal, BalRec{Table: parts[1], Amount: v.I.String()})
 			cur = &sc.Bal[len(sc.Bal)-1]
 		case parts[0] == "tbl" && strings.HasSuffix(en.Tag, "arg0") && cur != nil && v.S != nil:
-			cur.K1Hex = fmt.Sprintf("%x", *v.S)
+			k1 := *v.S
+			if r, ok := modReal[k1]; ok {
+				k1 = r
+			}
+			cur.K1Hex = fmt.Sprintf("%x", k1)
 		case parts[0] == "tbl" && strings.HasSuffix(en.Tag, "arg1") && cur != nil && v.S != nil:
 			cur.K2 = *v.S
 		case parts[0] == "blocked" && en.Kind == "app" && v.B != nil:
